@@ -16,7 +16,7 @@ ZOO = "legacy"
 ALLOPS = {"create", "attach", "detach", "detach_self", "replace_prop", "replace_kids", "replace_bad", "replace_with",
           "replace_with_none", "duplicate"}
 TRANSFORM_OPS = {"tvisit", "texec"}
-TRULES = ("keep", "bump", "fresh", "drop", "boom")
+TRULES = ("keep", "bump", "fresh", "drop", "boom")      # + "use" (transformers only): an existing node handed back
 
 
 
@@ -193,7 +193,7 @@ class Runner:
                 elif kind == "tvisit":
                     ret = self.visitor(op["mode"], op["atom"]).transform(a)
                 elif kind == "texec":
-                    ret = self.transformer(op["mode"], op["atom"]).execute(a)
+                    ret = self.transformer(op["mode"], op["atom"], self.nodes[op["b"] - 1] if op["b"] else None).execute(a)
                 else:
                     raise ValueError(kind)
         except self.errs as e:
@@ -203,7 +203,7 @@ class Runner:
         return "ok", ret
 
     # ---- user transformations (C18 / C19: "transform visitors and transformers")
-    def rule(self, rule: str, atom: int):
+    def rule(self, rule: str, atom: int, use=None):
         """what the user's code does to a leaf-like node whose property a is pool atom `atom`"""
         W = self.W
         fa = W.zi.field("LLeaf", "a")
@@ -218,6 +218,8 @@ class Runner:
                 return W.cls("LLeaf")(a=W.prop_value("LLeaf", fa, 2), origin=W.origins[0])
             if rule == "drop":
                 return None
+            if rule == "use":
+                return use          # an existing node is handed back
             raise UserBoom()
         return act
 
@@ -230,9 +232,9 @@ class Runner:
                 return act(node)
         return V()
 
-    def transformer(self, rule: str, atom: int):
+    def transformer(self, rule: str, atom: int, use=None):
         from pyoak.legacy.node import ASTTransformer
-        act = self.rule(rule, atom)
+        act = self.rule(rule, atom, use)
 
         class T(ASTTransformer):
             def transform(self, node):
@@ -409,6 +411,18 @@ def upchain(o) -> list:
     return out
 
 
+def subtree_objs(o) -> list:
+    out, stack, seen = [], [o], set()
+    while stack:
+        x = stack.pop()
+        if id(x) in seen:
+            continue
+        seen.add(id(x))
+        out.append(x)
+        stack.extend(x.get_child_nodes())
+    return out
+
+
 def reaches_any(start, targets) -> bool:
     tg = {id(x) for x in targets}
     stack, seen = [start], set()
@@ -483,6 +497,10 @@ def run_program(W, prog, sink: dict, strays: list, states: dict | None = None, r
                 break
         if R.drop_inadmissible(op):
             break
+        if op["op"] == "texec" and op["mode"] == "use":
+            a, b = R.nodes[op["a"] - 1], R.nodes[op["b"] - 1]
+            if reaches_any(b, upchain(a)) or reaches_any(b, subtree_objs(a)):
+                break       # as for replace_with: the node handed back must not contain the receiver's tree or parents
         # a handle whose node already has an earlier handle (a transformation returned its argument) is spelled
         # with the earlier one, so that names in operations and states agree
         op = dict(op, a=R.canon(op["a"]), b=R.canon(op["b"]), kids=[R.canon(k) for k in (op["kids"] or [])])
@@ -770,6 +788,8 @@ def run(chk: core.Check, pid: str, classify):
     TUPLE = [_O("create", "LLeaf", mode="plain"), _O("create", "LLeaf", mode="plain"), _O("create", "LMany", kids=[1, 2], mode="plain"),
              _O("create", "LLeaf", mode="plain"), _O("create", "LUnary", kids=[4], mode="plain")]
     CHAIN = [_O("create", "LLeaf", mode="plain"), _O("create", "LUnary", kids=[1], mode="plain"), _O("create", "LUnary", kids=[2], mode="plain")]
+    OPTPRE = [_O("create", "LLeaf", mode="plain"), _O("create", "LOpt", kids=[1], mode="plain"), _O("create", "LLeaf", mode="plain"),
+              _O("create", "LUnary", kids=[3], mode="plain")]
     DETACH = {"create", "detach", "attach", "duplicate"}
     REPL = {"create", "replace_with", "replace_with_none", "detach"}
     PD = ("plain", "detached")
@@ -790,7 +810,11 @@ def run(chk: core.Check, pid: str, classify):
                # user transformations: visitors (detached clone, then replace_with) and transformers (in place, bottom-up)
                ("transform-4", 4, 4, ["LLeaf", "LMany"], 2, ("plain",), (0,), TR, None, ()),
                ("transform-single-4", 4, 4, ["LLeaf", "LUnary", "LOpt"], 1, PD, (0,), TRD, None, (), True, ("bump", "drop", "boom")),
-               ("transformer-partial-5", 5, 5, ["LLeaf", "LUnary", "LMany"], 2, ("plain",), (0,), {"create", "texec"}, None, (), True, ("drop",))]
+               ("transformer-partial-5", 5, 5, ["LLeaf", "LUnary", "LMany"], 2, ("plain",), (0,), {"create", "texec"}, None, (), True, ("drop",)),
+               # a transformer whose transform() hands back an existing node (refused by type, by an existing parent, ...)
+               ("transformer-use-4", 4, 4, ["LLeaf", "LUnary", "LMany"], 2, PD, (0,), {"create", "texec"}, None, (), True, ("use",)),
+               ("transformer-use-after-opt-2", 6, 6, ["LLeaf", "LUnary", "LOpt"], 1, ("plain",), (0,), {"create", "texec", "detach"}, None,
+                OPTPRE, True, ("use", "drop"))]
     else:
         # a trailing False: model checking only (the design's invariants at a depth whose witness programs would be
         # too many to execute)
@@ -805,6 +829,9 @@ def run(chk: core.Check, pid: str, classify):
                ("transform-single-4", 4, 4, ["LLeaf", "LSub", "LUnary", "LOpt"], 1, PD, (0,), TRD, None, (), True, R4),
                ("transformer-partial-5", 5, 5, ["LLeaf", "LUnary", "LMany"], 2, ("plain",), (0,), {"create", "texec"}, None, (), True, ("drop",)),
                ("all-ops-4", 4, 4, ["LLeaf", "LUnary", "LMany"], 2, PD, (0, 1), MC_OPS | {"tvisit", "texec"}, None, ()),
+               ("transformer-use-5", 5, 5, ["LLeaf", "LUnary", "LMany"], 2, PD, (0,), {"create", "texec"}, None, (), True, ("use",)),
+               ("transformer-use-after-opt-3", 7, 7, ["LLeaf", "LUnary", "LOpt"], 1, PD, (0,), {"create", "texec", "detach"}, None,
+                OPTPRE, True, ("use", "drop")),
                ("replace-kids-6", 6, 6, ["LLeaf", "LMany"], 2, ("plain",), (0,), {"create", "replace_kids"}, ("attached",), (), False),
                ("after-tuple-3", 8, 8, ["LLeaf", "LUnary", "LMany"], 2, ("plain",), (0,), None, None, TUPLE, False),
                ("after-chain-4", 7, 7, ["LLeaf", "LUnary"], 1, PD, (0,), None, None, CHAIN, False)]
